@@ -32,7 +32,7 @@ Eager      == {"xml", "soap11", "soap12"}      \* serialise inside get_out_strin
 Soap       == {"soap11", "soap12"}
 ReqClass   == {"valid", "badsyntax", "badenvelope", "unknown", "badargs"}
 Outcome    == {"ok", "fault_client", "fault_server", "fault_nf", "fault_auth",
-               "fault_405", "fault_413", "exc"}
+               "fault_405", "fault_413", "exc", "exc_type"}    \* exc_type: a TypeError (argument-passing code catches those)
 Where      == {"app", "svc", "svc2"}           \* which listener raises
 
 VARIABLES
@@ -57,6 +57,7 @@ FaultOf(o) == CASE o = "fault_client" -> <<"Client", "Custom">>
                 [] o = "fault_405"    -> <<"Client", "RequestNotAllowed">>
                 [] o = "fault_413"    -> <<"Client", "RequestTooLong">>
                 [] o = "exc"          -> <<"Server">>        \* generic Internal Error
+                [] o = "exc_type"     -> <<"Server">>
 NoFault == <<>>
 \* dedicated error class of the fault object (isinstance in fault_to_http_response_code)
 ClsOf(f) == CASE f = <<"Client", "RequestTooLong">>          -> "toolong"
@@ -68,14 +69,18 @@ PP == INSTANCE PipelineProps
 IsClient(f) == PP!IsClientCode(f)
 Status(fam, f) == PP!Status(fam \in Soap, ClsOf(f), f)
 
-NoInj == [call |-> "ok", fn |-> "ok", ret |-> "ok", ser |-> "ok", at |-> "app", res |-> "plain"]
+NoInj == [call |-> "ok", fn |-> "ok", ret |-> "ok", ser |-> "ok", at |-> "app", res |-> "plain", fin |-> "ok"]
 
+\* a single failure per call; built constructively (a filter over the full product is slow)
+Bad == Outcome \ {"ok"}
 InjSet ==
-  { i \in [call : Outcome, fn : Outcome, ret : Outcome, ser : {"ok", "exc"}, at : Where,
-           res : {"plain", "gen"}] :       \* res: the function returns a value / is a generator
-      \* a single failure; `at` only matters for the two listener injections
-      /\ Cardinality({k \in {"call", "fn", "ret", "ser"} : i[k] # "ok"}) <= 1
-      /\ ((i.call = "ok" /\ i.ret = "ok") => i.at = "app") }
+     {[NoInj EXCEPT !.res = r] : r \in {"plain", "gen"}}
+  \cup {[NoInj EXCEPT !.call = o, !.at = a] : o \in Bad, a \in Where}
+  \cup {[NoInj EXCEPT !.fn = o, !.res = r] : o \in Bad, r \in {"plain", "gen"}}
+  \cup {[NoInj EXCEPT !.ret = o, !.at = a] : o \in Bad, a \in Where}
+  \cup {[NoInj EXCEPT !.ser = "exc"]}
+  \* a raising method_context_closed / wsgi_close listener, on a success and on a fault
+  \cup {[NoInj EXCEPT !.fin = f, !.fn = o] : f \in {"raise_closed", "raise_wsgiclose"}, o \in {"ok", "fault_client"}}
 
 EventInj == {i \in InjSet : i.res = "plain"}
 EventScenarios ==
@@ -87,11 +92,13 @@ EventScenarios ==
       /\ (s.inj.ser # "ok" => (s.cfg.family \in Eager /\ s.cfg.tr = "wsgi"))
       /\ (s.req.class = "badenvelope" => s.cfg.family \in Soap)
       /\ (s.req.class = "badsyntax" => s.cfg.family # "http")
-      /\ (s.cfg.family = "http" => s.cfg.tr = "wsgi") }
+      /\ (s.cfg.family = "http" => s.cfg.tr = "wsgi")
+      /\ (s.inj.fin # "ok" => s.cfg.tr = "wsgi") }
 
 \* body length x declared CONTENT_LENGTH x limit x block x chunked x outcome x abort
 WsgiInj == {i \in InjSet : i.call = "ok" /\ i.ret = "ok" /\ i.ser = "ok"
-                             /\ i.fn \in {"ok", "fault_client", "fault_413", "exc"}}
+                             /\ i.fn \in {"ok", "fault_client", "fault_413", "exc"}
+                             /\ i.fin \in {"ok", "raise_wsgiclose"}}
 WsgiRpcOf(ML, BL, LEN, DECL) ==
   { s \in [cfg : [tr : {"wsgi"}, family : {"json", "soap11"}, chunked : BOOLEAN,
                   maxlen : ML, block : BL],
@@ -99,12 +106,13 @@ WsgiRpcOf(ML, BL, LEN, DECL) ==
                   declared : {Absent, Empty} \cup DECL],
            inj : WsgiInj, abort : {NoAbort, 0, 1}] :
       /\ (s.req.class # "valid" => s.inj = NoInj) }
-WsgiRpcScenarios == IF ScenSet = "wsgiq" THEN WsgiRpcOf({2}, {1, 3}, 1..3, 0..4)
+WsgiRpcScenarios == IF ScenSet = "wsgitiny" THEN WsgiRpcOf({2}, {1}, 1..2, {1, 3})
+                    ELSE IF ScenSet = "wsgiq" THEN WsgiRpcOf({2}, {1, 3}, 1..3, 0..4)
                                          ELSE WsgiRpcOf({2, 4}, {1, 3}, 1..5, 0..6)
 \* a ?wsdl fetch is a GET: no body, no injection; "wsdlerr": building the document fails
 WsgiWsdlScenarios ==
   [cfg : [tr : {"wsgi"}, family : {"soap11"}, chunked : BOOLEAN, maxlen : {2, 4}, block : {1}],
-   req : [kind : {"wsdl", "wsdlerr"}, class : {"valid"}, len : {1}, declared : {Absent}],
+   req : [kind : {"wsdl", "wsdlerr", "wsdlrw"}, class : {"valid"}, len : {1}, declared : {Absent}],   \* wsdlrw: a `wsdl` listener rewrites the document
    inj : {NoInj}, abort : {NoAbort, 0, 1}]
 WsgiScenarios == WsgiRpcScenarios \cup WsgiWsdlScenarios
 
@@ -153,10 +161,10 @@ WsgiCall ==
 \* answered with a Content-Length; the context is closed after the body
 WsdlRespond ==
   /\ pc = "wsdl"
-  /\ status' = (IF req.kind = "wsdl" THEN 200 ELSE 500)
-  /\ ev' = ev \o << <<"wsgi", IF req.kind = "wsdl" THEN "wsdl" ELSE "wsdl_exception">>,
+  /\ status' = (IF req.kind # "wsdlerr" THEN 200 ELSE 500)
+  /\ ev' = ev \o << <<"wsgi", IF req.kind # "wsdlerr" THEN "wsdl" ELSE "wsdl_exception">>,
                      <<"sr", status'>> >>
-  /\ sr' = sr + 1 /\ clen' = (IF req.kind = "wsdl" THEN 1 ELSE Absent) /\ pc' = "handover"
+  /\ sr' = sr + 1 /\ clen' = (IF req.kind # "wsdlerr" THEN 1 ELSE Absent) /\ pc' = "handover"
   /\ UNCHANGED <<scen, fnRuns, fnOk, inErr, outErr, bound, handed, chunks, closed, wclosed, nread>>
 
 \* create_in_document consumes ctx.in_string; for WSGI that is the reader loop
@@ -322,12 +330,21 @@ BodyEnd ==
   /\ pc' = (IF closed = 0 THEN "finalize" ELSE "iterclose")
   /\ UNCHANGED <<scen, ev, fnRuns, fnOk, inErr, outErr, bound, sr, status, clen, handed, chunks, closed, wclosed, nread>>
 
+\* MethodContext.close() fires method_context_closed, then the transport fires
+\* wsgi_close.  A raising listener makes the exception escape to the WSGI server
+\* (from next() or from close()); the context is nevertheless closed exactly once:
+\* the server's later close() must not finalize again.
 Finalize ==
   /\ pc = "finalize"
   /\ ev' = ev \o (IF cfg.tr = "wsgi" /\ req.kind = "rpc"
-                    THEN << <<"app", "method_context_closed">>, <<"wsgi", "wsgi_close">> >>
+                    THEN (IF inj.fin = "raise_closed"
+                            THEN << <<"app", "method_context_closed">>, <<"escape", "Boom">> >>
+                          ELSE IF inj.fin = "raise_wsgiclose"
+                            THEN << <<"app", "method_context_closed">>, <<"wsgi", "wsgi_close">>, <<"escape", "Boom">> >>
+                          ELSE << <<"app", "method_context_closed">>, <<"wsgi", "wsgi_close">> >>)
                     ELSE << <<"app", "method_context_closed">> >>)
-  /\ closed' = closed + 1 /\ wclosed' = wclosed + (IF cfg.tr = "wsgi" /\ req.kind = "rpc" THEN 1 ELSE 0)
+  /\ closed' = closed + 1
+  /\ wclosed' = wclosed + (IF cfg.tr = "wsgi" /\ req.kind = "rpc" /\ inj.fin # "raise_closed" THEN 1 ELSE 0)
   /\ pc' = IF cfg.tr = "wsgi" THEN "iterclose" ELSE "done"
   /\ UNCHANGED <<scen, fnRuns, fnOk, inErr, outErr, bound, sr, status, clen, handed, chunks, nread>>
 
@@ -349,7 +366,8 @@ Spec == Init /\ [][Next]_vars /\ WF_vars(Next)
 \* by what is known about the call), so that the SAME definitions are evaluated
 \* by TLC on the model here (M1) and on traces recorded from the real code (M3).
 Done == pc = "done"
-K == [tr |-> cfg.tr, rpc |-> req.kind = "rpc", soap |-> cfg.family \in Soap, done |-> Done,
+K == [tr |-> cfg.tr, rpc |-> req.kind = "rpc", mayEscape |-> inj.fin # "ok",
+      wcloseExpected |-> inj.fin # "raise_closed", soap |-> cfg.family \in Soap, done |-> Done,
       fault |-> outErr # NoFault, fnOk |-> fnOk, fnRuns |-> fnRuns,
       infault |-> inErr # NoFault,
       malformed |-> (req.kind = "rpc" /\ (req.class # "valid" \/ (Truncated /\ cfg.family # "http"))),
@@ -376,7 +394,7 @@ TooLongRefused == PP!TooLongRefused(ev, K)
 NoFnOnInFault  == PP!NoFnOnInFault(ev, K)
 BadReqIsClient == PP!BadReqIsClient(ev, K)
 StatusTable    == PP!StatusTable(ev, K)
-NoEscape       == PP!NoEscape(ev)
+NoEscape       == PP!NoEscapeK(ev, K)
 Terminates     == <>(pc \in {"done", "crashed"})
 \* the model's own counters agree with what the history shows (sanity of the model)
 CountersAgree  == /\ fnRuns = PP!Count(ev, "fn", "call")
